@@ -247,7 +247,7 @@ func shape(d []byte) string {
 
 var menu = []string{
 	"a:1|c", "a:2|c|@0.5", "g:1|g", "g:2|g", "g:3|g|#x", "t:5|ms", "t:7|h|@0.25", "s:m1|s", "s:m2|s",
-	"a b/c$d:1|c", "bad line", "", "_e{2,3}:ti|txt|#et", "a:4|c|#host:hh,x", "a:1|c|#x,host:h2,host:h3", "g:9|g|#host:hh", "t:2|ms|#w,host:h4,x,y,z",
+	"a b/c$d:1|c", "bad line", "", "_e{2,3}:ti|txt|#et", "a:4|c|#host:hh,x", "a:1|c|#x,host:h2,host:h3", "g:9|g|#host:hh", "a:5|c|#host:fe80::1,x", "t:2|ms|#w,host:h4,x,y,z",
 	// lines rejected only after their tags were read, and an event without tags of its own
 	"a:zz|c|#t1,t2", "a:1|c|#t3|@0", "_e{1,1}:x|y", "_e{1,1}:x|y|#t4|p:bogus",
 	// the same names under another tag set, sampled (first datapoint of a new series of an existing name)
